@@ -110,6 +110,11 @@ func (b *baseSpace) Build(path []Op) (*World, error) {
 		w.TrackCommits = b.spec.Has("crash")
 		w.TwinBase = func() (*World, error) { return b.newWorld(), nil }
 	}
+	for _, o := range b.spec.Oracles {
+		if strings.HasPrefix(o, "ev:") {
+			w.KeyStorage = true // histories contain events: clean and dirty slabs are different states
+		}
+	}
 	for _, op := range b.seed {
 		if err := w.Apply(op); err != nil {
 			return nil, fmt.Errorf("seed op %s: %w", op, err)
